@@ -246,37 +246,40 @@ def finalize_skeleton(ctx, F, r):
     errs = sorted({p["res"][1] for p in rets if p["res"][0] == "Err"})
     ctx.ob(r, ("finalize", "error-variants"), errs == sorted(["TooLargeInput", "TooSmallInput", "BucketsAreThreeQuarterEmpty", "BucketsAreHalfEmpty"]),
            "finalize constructs error variants %s" % errs, cfg=F.key, where=b.where())
-    order = {"len_gate": 0, "validity": 0, "zero_test": 2, "lt_const": 3}
     inc_f = M.of["incompat"]
     comp_f = M.of["compat"]
+    # precedence of the rejections, decided on the abstract domain (5 option bits x validity class x q3==0 x too-few-buckets):
+    # length errors first (too large is never waived), then three-quarter-empty, then half-empty, else Ok -- in whatever
+    # order the source tests them
     bad = []
-    stage_of_err = {"TooLargeInput": 0, "TooSmallInput": 0, "BucketsAreThreeQuarterEmpty": 2, "BucketsAreHalfEmpty": 3}
-    for p in rets:
-        stages = []
-        for e in p["events"]:
-            if e[0] in order:
-                stages.append(order[e[0]])
-            elif e[0] == "flag":
-                pass
-        if stages != sorted(stages):
-            bad.append(("gate order", [e[0] for e in p["events"]]))
-        if p["res"][0] == "Err":
-            st = stage_of_err.get(p["res"][1])
-            if st is None or (stages and max(stages) != st):
-                bad.append(("error %s returned after gates %s" % (p["res"][1], stages), None))
-        if p["res"][0] == "Ok":
-            # every Ok path has passed all three gates
-            if not ({0, 2, 3} <= set(stages)):
-                bad.append(("Ok path skips a gate", stages))
+    rows, terr = finalize_table(F, M)
+    if rows is None:
+        bad.append(("decision table", terr))
+    else:
+        for o, d, res in rows:
+            if d["gate"] and d["validity"] == "TooLarge":
+                want = ("Err", "TooLargeInput")
+            elif d["gate"] and not o["small"]:
+                want = ("Err", "TooSmallInput")
+            elif d["Z"] and not o["quarter"]:
+                want = ("Err", "BucketsAreThreeQuarterEmpty")
+            elif d["H"] and not (o["half"] or o["quarter"]):
+                want = ("Err", "BucketsAreHalfEmpty")
+            else:
+                want = ("Ok",)
+            got = (res[0], res[1]) if res[0] == "Err" else ("Ok",)
+            if got != want and len(bad) < 4:
+                bad.append(("options %s, data %s" % ({k: v for k, v in o.items() if v}, d), "gives %s, reference %s" % (got, want)))
     ctx.ob(r, ("finalize", "rejection-order"), not bad,
-           "rejection order is not length -> three-quarter-empty -> half-empty -> Ok: %s" % bad[:3], cfg=F.key, where=b.where())
+           "rejection precedence is not length -> three-quarter-empty -> half-empty -> Ok: %s" % bad[:3], cfg=F.key, where=b.where(),
+           detail={"rows": len(rows) if rows else 0})
     # (b) selection ranks and quartile provenance
     oks = [p for p in rets if p["res"][0] == "Ok"]
     if not oks:
         ctx.missing(r, "Ok path in finalize_with_options", cfg=F.key)
         return
     NB = ("cparam", "SIZE_BUCKETS")
-    rank = lambda d: ("bin", "Sub", ("bin", "Div", NB, C(d)), C(1))
+    rank = lambda d: n(("bin", "Sub", ("bin", "Div", NB, C(d)), C(1)))
     sel1 = ("call", "core::slice::<impl [T]>::select_nth_unstable", (("ref", V("copy")), rank(2)))
     q2 = ("load", ("deref", ("field", sel1, 1)))
     sel = lambda part: ("call", "core::slice::<impl [T]>::select_nth_unstable", (("field", sel1, part), rank(4)))
@@ -342,7 +345,7 @@ def finalize_skeleton(ctx, F, r):
             # remove IntToInt casts that the keep_casts normaliser kept on leaves we do not constrain
             return e
 
-        want_q = ("call", "hash::qratios::FuzzyHashQRatios::new", (ratio(Q1), ratio(Q2)))
+        want_q = ("call", "hash::qratios::FuzzyHashQRatios::new", (n(ratio(Q1), keep_casts=True), n(ratio(Q2), keep_casts=True)))
         want_len = ("call", "core::option::Option::<T>::unwrap", (("call", "length::FuzzyHashLengthEncoding::new", (V("len"),)),))
         pat = ("call", V("from_raw"), (("call", V("body_from_raw"), (V("body"),)), ("load", ("field", ("deref", P(1)), M.gf["checksum"])), want_len, want_q))
         bnd = {}
